@@ -27,6 +27,8 @@ type St = State<ResidualModel>;
 const GETTER_ULPS: u64 = 4;
 /// relative tolerance of the runtime support searches for "the same value" (see checks/c11.py TOL_HIST)
 const VALUE_TOL: f64 = 1e-7;
+/// relative tolerance of par_pure vs pure (see checks/c11.py TOL_PAR)
+const PAR_TOL: f64 = 1e-8;
 
 fn mk_state(model: &Arc<ResidualModel>, s: &RState) -> St {
     State::new_nvt(
@@ -591,7 +593,7 @@ fn run_config(c: &Config, model_name: &str, rs: &RState, full: bool, rng: &mut R
         let fname = format!("rnd_{}_{}.v", c.name, ci);
         let mut vals = Vals::default();
         let mut v = String::new();
-        v.push_str("Definition cases : list (list op * (list (option (Z * Z)) * list snap_t)) := [\n");
+        v.push_str("Definition cases : list (list gop * (list (option (Z * Z)) * list snap_t)) := [\n");
         let mut cases = Vec::new();
         for (i, h) in hs.iter().enumerate() {
             let mut pool: Vec<St> = vec![mk_state(&c.model, rs)];
@@ -604,7 +606,7 @@ fn run_config(c: &Config, model_name: &str, rs: &RState, full: bool, rng: &mut R
                     Op::Req(s, r) => {
                         let x = r.issue(&pool[*s]);
                         rdev.see(&|| json!(h.iter().map(op_text).collect::<Vec<_>>()), r, x, fresh.v[r]);
-                        ops_coq.push(format!("Req {} ({})", s, r.coq()));
+                        ops_coq.push(format!("GReq {} ({})", s, r.coq()));
                         resp.push(json!({"b": x.to_bits(), "exact": true}));
                         resp_coq.push(format!("Some ({}, 0%Z)", vals.v(x.to_bits())));
                         prim += 1;
@@ -612,7 +614,7 @@ fn run_config(c: &Config, model_name: &str, rs: &RState, full: bool, rng: &mut R
                     Op::Clone(s) => {
                         let cl = pool[*s].clone();
                         pool.push(cl);
-                        ops_coq.push(format!("Clone {}", s));
+                        ops_coq.push(format!("GClone {}", s));
                         resp.push(json!(null));
                         resp_coq.push("None".into());
                         nclones += 1;
@@ -623,9 +625,10 @@ fn run_config(c: &Config, model_name: &str, rs: &RState, full: bool, rng: &mut R
                         let reqs = g.requests(nc);
                         assert_eq!(gvals.len(), reqs.len());
                         getter_calls += 1;
+                        // the model expands the getter into its requests (Cache.v: getter_requests)
+                        ops_coq.push(format!("GGet {} G{:?}", s, g));
                         for (r, x) in reqs.iter().zip(gvals.iter()) {
                             getter_worst = getter_worst.max(rel_dev(*x, fresh.v[r]));
-                            ops_coq.push(format!("Req {} ({})", s, r.coq()));
                             resp.push(json!({"b": x.to_bits(), "exact": false, "getter": format!("{:?}", g)}));
                             resp_coq.push(format!("Some ({}, {}%Z)", vals.v(x.to_bits()), GETTER_ULPS));
                             prim += 1;
@@ -647,8 +650,8 @@ fn run_config(c: &Config, model_name: &str, rs: &RState, full: bool, rng: &mut R
         }
         v.push_str("].\n");
         v.push_str("Eval vm_compute in (\"N\", List.length cases).\n");
-        v.push_str("Eval vm_compute in (\"BAD\", check O cases).\n");
-        v.push_str("Lemma model_and_implementation_agree : check O cases = [].\nProof. vm_compute. reflexivity. Qed.\n");
+        let _ = writeln!(v, "Eval vm_compute in (\"BAD\", check_api {nc} O cases).");
+        let _ = writeln!(v, "Lemma model_and_implementation_agree : check_api {nc} O cases = [].\nProof. vm_compute. reflexivity. Qed.");
         let v = format!("{}{}{}{}", coq_header(), ocoq, vals.coq(), v);
         std::fs::write(format!("{out_dir}/{fname}"), v).unwrap();
         files.push(json!({"file": fname, "kind": "rnd", "config": c.name, "cases": cases}));
@@ -760,6 +763,7 @@ fn par_pure_runs(full: bool, rng: &mut Rng) -> Value {
     let mut states = 0usize;
     let mut worst = 0.0f64;
     let mut worst_case = json!(null);
+    let mut first_failure = json!(null);
     let mut failures: Vec<Value> = Vec::new();
     let mut samples: Vec<Value> = Vec::new();
     let threads: &[usize] = if full { &[1, 2, 3, 4, 8, 16] } else { &[1, 2, 4, 16] };
@@ -816,6 +820,10 @@ fn par_pure_runs(full: bool, rng: &mut Rng) -> Value {
                         worst = w;
                         worst_case = json!({"case": case, "pure_T_rhoV_rhoL": sv, "par_pure_T_rhoV_rhoL": pv});
                     }
+                    // the smallest case beyond the tolerance of the check (npoints ascending, then threads, then chunk size)
+                    if w > PAR_TOL && first_failure.is_null() {
+                        first_failure = json!({"case": case, "pure_T_rhoV_rhoL": sv, "par_pure_T_rhoV_rhoL": pv});
+                    }
                     if samples.len() < 4 && nt > 1 && k < np {
                         samples.push(case);
                     }
@@ -824,7 +832,7 @@ fn par_pure_runs(full: bool, rng: &mut Rng) -> Value {
         }
     }
     json!({"runs": runs, "states_compared": states, "worst_rel": if worst.is_finite() { json!(worst) } else { json!("inf") },
-           "worst_case": worst_case, "errors": failures, "samples": samples})
+           "worst_case": worst_case, "first_failure": first_failure, "errors": failures, "samples": samples})
 }
 
 // ------------------------------------------------------------------------------------------------
